@@ -1001,3 +1001,25 @@ pub fn good_monotone_sum(v: &[u8; 32], len: usize, k: usize, i: usize) -> u8 {
         0
     }
 }
+
+// ---- clamp asserts min <= max ------------------------------------------------------------------------------------------
+
+pub fn good_clamp_literals(x: f32, n: i32) -> (f32, i32) {
+    (x.clamp(0.0, 1.0), n.clamp(-4, 14))
+}
+
+pub fn bad_clamp_font_bounds(x: f32, min: f32, max: f32) -> f32 {
+    x.clamp(min, max)
+}
+
+pub fn bad_clamp_int_bounds(x: i32, min: i32, max: i32) -> i32 {
+    x.clamp(min, max)
+}
+
+pub fn good_clamp_ordered(x: i32, min: i32, max: i32) -> i32 {
+    if min <= max {
+        x.clamp(min, max)
+    } else {
+        x
+    }
+}
